@@ -309,3 +309,87 @@ def run_uring(chk):
         p = chk.replay_file("uring_%s" % "_".join(c), {"kind": "monitor-failed-on-implementation", "case": c,
                             "verdict": verdict, "details": parts[2].strip(), "replay": "%s %s" % (exe, " ".join(c))})
         chk.violation(key, p, text="[uring %s] %s\n  replay: %s %s" % (" ".join(c), verdict[:300], exe, " ".join(c)))
+
+
+# ----------------------------------------------------------------------------- FdOwner (K3)
+def _fd_alphabet(kind, k):
+    ops = []
+    for i in range(k):
+        ops += ["n%d" % i, "e%d" % i, "d%d" % i]
+        if kind == "fd":
+            ops.append("x%d" % i)
+        for j in range(k):
+            ops.append("a%d,%d" % (i, j))
+            if i != j:
+                ops.append("c%d,%d" % (i, j))
+    ops.append("o")
+    return ops
+
+
+def fdowner_cases(chk):
+    """(kind, nslots, ops): every sequence of up to 3 operations over two slots, then seeded random
+    longer ones over up to 4 slots, biased towards the shapes in which a number is reused
+    (close/destroy, somebody else opens, another close/destroy)."""
+    import itertools
+    rng = chk.rng
+    thorough = chk.tier == "thorough"
+    cases = []
+    for kind in ("fd", "mm"):
+        al = _fd_alphabet(kind, 2)
+        for n in range(1, 4 if not thorough else 5):
+            for seq in itertools.product(al, repeat=n):
+                cases.append((kind, 2, list(seq)))
+        for _ in range(12000 if thorough else 2500):
+            k = rng.choice((1, 2, 3, 4))
+            al = _fd_alphabet(kind, k)
+            n = rng.randrange(4, 16)
+            seq = []
+            for _ in range(n):
+                seq.append("o" if rng.random() < 0.15 else rng.choice(al))
+            cases.append((kind, k, seq))
+    return cases
+
+
+def run_fdowner(chk):
+    """K3 tie of safe_file_descriptor / mmap_region with the model FdOwner plus the direct monitor:
+    no close of a number that is not open, somebody else's descriptors/mappings stay what they were."""
+    import vlib
+    exe, err = vlib.build_driver("k3_fdowner", "plain17")
+    if err:
+        p = chk.replay_file("build_k3_fdowner", {"kind": "build-failure", "driver": "k3_fdowner", "error": err})
+        chk.violation("fd_owner/build", p, no_input=True, text="driver k3_fdowner does not compile against /repo")
+        return
+    cases = fdowner_cases(chk)
+    impl_lines = ["%s %d | %s" % (kind, k, " ".join(ops)) for kind, k, ops in cases]
+    model_lines = ["fdowner 1 %d %d | %s" % (1 if kind == "fd" else 0, k, " ".join(ops)) for kind, k, ops in cases]
+    outs = vlib.run_impl_lines(exe, impl_lines, chunk=2000)
+    mouts = vlib.model_run(model_lines)
+    st = chk.cov.setdefault("fdowner", {"cases": 0, "agree": 0})
+    for (kind, k, ops), line, o, m in zip(cases, impl_lines, outs, mouts):
+        st["cases"] += 1
+        closes = sum(1 for w in o.split(" ")[0].split(",") if w.startswith("c"))
+        chk.count((kind, k, tuple(ops)), closes >= 2)
+        who = "fd_owner" if kind == "fd" else "mmap_region"
+        what = "double-close" if kind == "fd" else "double-unmap"
+        replay = "echo '%s' | %s" % (line, exe)
+        if o.startswith("CRASH"):
+            p = chk.replay_file("%s_crash" % who, {"kind": "driver-crash", "input": line, "output": o, "replay": replay})
+            chk.violation("%s/crash" % who, p, text="%s: %s\n  replay: %s" % (line, o[:200], replay))
+            continue
+        impl_core, _, sent = o.partition(" sentinels=")
+        if ":EBADF" in impl_core or sent != "ok":
+            p = chk.replay_file("%s_%s" % (who, what), {"kind": "monitor-failed-on-implementation", "input": line, "output": o,
+                                "model": m, "replay": replay})
+            why = ("closed a number that was not open (released twice)" if ":EBADF" in impl_core else "") + \
+                  ("; somebody else's resource was closed: " + sent if sent != "ok" else "")
+            chk.violation("%s/%s" % (who, what), p, text="[%s] %s: %s\n  replay: %s" % (line, why.strip("; "), o[:200], replay))
+            continue
+        if impl_core != m:
+            p = chk.replay_file("%s_corr" % who, {"kind": "correspondence", "obligation": "K3 k3_fdowner vs model handler 'fdowner'",
+                                "input": line, "impl": o, "model": m, "replay": replay})
+            chk.violation("%s/corr" % who, p, text="[%s] impl: %s   model: %s\n  replay: %s" % (line, o[:200], m[:200], replay))
+            continue
+        st["agree"] += 1
+        chk.cov["traces_validated_against_impl"] += 1
+        if closes >= 2 and len(chk.cov["samples"]) < 8 and kind == "fd" and "o" in ops:
+            chk.sample({"unit": "FdOwner", "input": line, "output": o})
